@@ -50,6 +50,38 @@ type UpSpec struct {
 	ChunkSize int   `json:"chunkSize"`
 	NoLength  bool  `json:"noLength"` // close-delimited body
 	Upgrade   bool  `json:"upgrade"`  // answer an upgrade request with 101 and echo
+	// when the upstream writes, counted from the moment it has read the whole request (nil: at once, in one write)
+	Delay *DelaySpec `json:"delay,omitempty"`
+}
+
+// DelaySpec scripts the upstream's pauses in milliseconds: before the status line, between header and body, between
+// consecutive pieces of the body (chunks of a chunked body; otherwise the body is cut into len(betweenMs)+1 pieces).
+type DelaySpec struct {
+	BeforeStatusMs int   `json:"beforeStatusMs"`
+	BeforeBodyMs   int   `json:"beforeBodyMs"`
+	BetweenMs      []int `json:"betweenMs"`
+}
+
+func (d *DelaySpec) total() time.Duration {
+	if d == nil {
+		return 0
+	}
+	n := d.BeforeStatusMs + d.BeforeBodyMs
+	for _, g := range d.BetweenMs {
+		n += g
+	}
+	return time.Duration(n) * time.Millisecond
+}
+
+func (d *DelaySpec) e2e() *e2e.Delays {
+	if d == nil {
+		return nil
+	}
+	out := &e2e.Delays{BeforeStatus: time.Duration(d.BeforeStatusMs) * time.Millisecond, BeforeBody: time.Duration(d.BeforeBodyMs) * time.Millisecond}
+	for _, g := range d.BetweenMs {
+		out.Between = append(out.Between, time.Duration(g)*time.Millisecond)
+	}
+	return out
 }
 
 // Case is one self-contained case.
@@ -84,7 +116,7 @@ func tag(b []byte) string {
 func noBodyStatus(st int) bool { return st == 204 || st == 304 || (st >= 100 && st < 200) }
 
 func (u UpSpec) reply(method string) e2e.Reply {
-	rep := e2e.Reply{Status: u.Status, Body: body(u.BodySeed, u.BodyLen), Chunked: u.Chunked, ChunkSize: u.ChunkSize, NoLength: u.NoLength}
+	rep := e2e.Reply{Status: u.Status, Body: body(u.BodySeed, u.BodyLen), Chunked: u.Chunked, ChunkSize: u.ChunkSize, NoLength: u.NoLength, Delays: u.Delay.e2e()}
 	for _, h := range u.Headers {
 		rep.Header = append(rep.Header, [2]string{h.name(), h.value()})
 	}
@@ -275,9 +307,9 @@ func (w *world) roundTrip(cs Case, id string, sc *script) Obs {
 		var resp *e2e.Response
 		var err error
 		if cs.Req.Proto == "h2" {
-			resp, err = w.roundTripH2(cs.Req, id)
+			resp, err = w.roundTripH2(cs.Req, id, 60*time.Second+cs.Up.Delay.total())
 		} else {
-			resp, err = w.gw.RoundTrip(cs.Req.raw(id), method, 60*time.Second)
+			resp, err = w.gw.RoundTrip(cs.Req.raw(id), method, 60*time.Second+cs.Up.Delay.total())
 		}
 		if err != nil {
 			o.Err = err.Error()
